@@ -130,8 +130,24 @@ pub fn main_probe(op: &str) {
 pub fn transcripts() -> Result<Vec<(String, Vec<String>)>, String> {
   let exe = std::env::current_exe().map_err(|e| e.to_string())?;
   let mut v = vec![];
-  for op in FIRST_OPS {
-    let o = std::process::Command::new(&exe).arg("probe").arg(op).output().map_err(|e| e.to_string())?;
+  // one more process: nothing first, but in a NOISY ENVIRONMENT - diagnostic switches a deployment or a developer
+  // may have set (bounded list of plausible names) must not change any derived value
+  let noisy: Vec<(String, String)> = {
+    let mut v = vec![("RUST_LOG".to_string(), "trace".to_string()), ("RUST_BACKTRACE".into(), "full".into()), ("DEBUG".into(), "1".into()), ("TRACE".into(), "1".into()), ("VERBOSE".into(), "1".into())];
+    for c in ["ADSS", "STAR", "STARS", "STA_RS", "SHARKS", "STAR_SHARKS", "PPOPRF", "GGM", "STAR_WASM", "STROBE"] {
+      for sfx in ["TRACE", "DEBUG", "LOG", "VERBOSE", "DIAG", "STATS", "METRICS"] {
+        v.push((format!("{}_{}", c, sfx), "1".into()));
+      }
+    }
+    v
+  };
+  for op in FIRST_OPS.iter().copied().chain(std::iter::once("noisy-environment")) {
+    let mut cmd = std::process::Command::new(&exe);
+    cmd.arg("probe").arg(op);
+    if op == "noisy-environment" {
+      cmd.envs(noisy.iter().cloned());
+    }
+    let o = cmd.output().map_err(|e| e.to_string())?;
     if !o.status.success() {
       return Err(format!("probe process for first-op {} exited with {:?}: {}", op, o.status.code(), String::from_utf8_lossy(&o.stderr).chars().take(300).collect::<String>()));
     }
@@ -164,7 +180,7 @@ pub fn process_order_check(cx: &mut crate::mc::CaseCx, prop: &str, filter: &dyn 
       let what = base.get(i).map(|l| l.split('=').next().unwrap_or("").trim().to_string()).unwrap_or_default();
       cx.viol(
         format!("{}/depends-on-process-history", prop),
-        format!("a fresh process whose FIRST operation is '{}' derives another value for [{}] than a process that starts with the observation itself (same inputs, same entropy): something initialised lazily by the first call leaks into later derivations - two clients (two processes) disagree", op, what),
+        format!("a fresh process whose FIRST operation is '{}' ('noisy-environment': nothing first, but ~75 diagnostic environment variables such as RUST_LOG, ADSS_TRACE, STAR_DEBUG set) derives another value for [{}] than a process that starts with the observation itself (same inputs, same entropy): something initialised lazily by the first call leaks into later derivations - two clients (two processes) disagree", op, what),
         json!({"first_operation": op, "observation": what, "in_a_process_starting_with_nothing": base.get(i), "in_this_process": mine.get(i)}),
       );
       return;
